@@ -8,7 +8,7 @@ CONSTANTS
   Starts = {0, 2}
   Timeouts = {0, 4}
   Thrs = {0, 3}
-  MinHs = {0, 9}
+  MinHs = {0, 10}
   Alwayss = {0, 8}
   Implicit = {}
   MaxBlocks = 11
